@@ -940,8 +940,9 @@ class ReconnectMonitor(GroundTruth):
                                 (g2["kind"] == "dialled" or g2["identified"])]
                     if not pc.get("persistent"):
                         vs.append(("reconnect:non-persistent-peer-dialled", f"peer {name} at {t}"))
-                    if stopping:
-                        vs.append(("reconnect:dialled-while-stopping", f"peer {name} at {t}"))
+                    fsock = next((x.fs for x in sc.socks if x.fs.sid == sid), None) or next((x for x in nw.world.socks if x.sid == sid), None)
+                    if fsock is not None and fsock.created_while:
+                        vs.append(("reconnect:dialled-while-stopping", f"peer {name} at {t}: socket {sid} was created after stop() had begun"))
                     if any_conn and not others:
                         vs.append(("reconnect:dialled-although-the-peer-has-a-connection", f"peer {name} at {t}: sockets {any_conn}"))
                     if not first:
@@ -1050,6 +1051,8 @@ class TableMonitor(GroundTruth):
                 vs.append(("tables:connection-the-peer-closed-is-still-open-at-quiescence", f"socket {sid}"))
             if (g["env_closed"] is not None or g["failed"]) and sid in listed:
                 vs.append(("tables:ended-connection-still-listed", f"socket {sid}"))
+            if g["kind"] in ("accepted", "dialled") and sid not in listed and not fs.closed:
+                vs.append(("tables:socket-of-a-connection-no-longer-listed-was-never-closed", f"socket {sid} ({g['kind']})"))
         # (a)/(b) peer.connection
         for name, peer in node.peers.items():
             pc = peer.connection
